@@ -110,6 +110,16 @@ class FakeCipher(object):
     def __init__(self, algorithm, mode, backend=None):
         _maybe_boom("cipher")
         self.algorithm, self.mode = algorithm, mode
+        # what the real Cipher/mode constructors refuse (mode.validate_for_algorithm, GCM limits)
+        if mode is not None and mode.name in ("CBC", "OFB", "CFB", "CTR"):
+            if len(mode.args[0]) * 8 != algorithm.block_size:
+                raise ValueError("Invalid IV size (%d) for %s." % (len(mode.args[0]), mode.name))
+        if mode is not None and mode.name == "GCM":
+            if not (8 <= len(mode.args[0]) <= 128):
+                raise ValueError("initialization_vector must be between 8 and 128 bytes (64 and 1024 bits).")
+            mtl = mode.kwargs.get("min_tag_length", 16)
+            if mtl is None or mtl < 4:
+                raise ValueError("min_tag_length must be >= 4")
         LOG.append(("Cipher", algorithm, mode))
 
     def encryptor(self):
@@ -335,7 +345,7 @@ def encrypt_sym(alg_i, fix_mode=None):
         if fix_mode is not None and mode_i != fix_mode:
             return True
         blk = BLOCK.get(alg_name, 64) // 8
-        if len(iv) != blk:
+        if len(iv) not in (blk, blk - 1):
             return True
         if not has_iv and iv != bytes(blk):
             return True
@@ -372,12 +382,18 @@ def encrypt_sym(alg_i, fix_mode=None):
             gcm = mode == BM.GCM
             pad_needed = mode in (BM.CBC, BM.ECB)
             bad_pad = pad_needed and pad not in (PM.PKCS5, PM.ANSI_X923)
-            return (bad_key or unsupported_mode or bad_pad or (has_aad and not gcm) or (gcm and not has_tag_len))
+            uses_iv_ = mode in (BM.CBC, BM.OFB, BM.CFB, BM.CTR)     # (GCM takes any IV of 8..128 bytes)
+            bad_iv = uses_iv_ and has_iv and len(iv) != blk          # the backend refuses a short IV
+            bad_tag = gcm and has_tag_len and tag_len < 4               # ... and tags shorter than 4 bytes
+            return (bad_key or unsupported_mode or bad_pad or (has_aad and not gcm) or (gcm and not has_tag_len)
+                    or bad_iv or bad_tag)
         finally:
             _Boom.kind = None
         reach()
         if klen not in sizes or boom != 0:
             return False                                  # an unusable key went through
+        if alg != A.RC4 and has_iv and len(iv) != blk and mode in (BM.CBC, BM.OFB, BM.CFB, BM.CTR):
+            return False                                  # an IV of the wrong size went through
         ct = res["cipher_text"]
         if alg == A.RC4:
             return ct == b"E[" + plain + b"]" and "iv_nonce" not in res
@@ -442,6 +458,38 @@ def decrypt_roundtrip(alg_i):
                          iv_nonce=res.get("iv_nonce", iv), auth_tag=res.get("auth_tag"))
         reach()
         return back == plain
+    return h
+
+
+def decrypt_garbage(alg_i):
+    """Decrypt of bytes that are not a cipher text of this key (the fake cipher refuses them, the fake
+    unpadder refuses bad padding): a KMIP error, never anything else."""
+    alg, alg_name = SYM[alg_i]
+    sizes = KEY_SIZES[alg_name]
+
+    def h(mode_i: int, pad_i: int, data: bytes, wrap_ok: bool, iv_short: bool) -> bool:
+        """
+        post: _
+        """
+        if not (1 <= mode_i <= 6 and 1 <= pad_i <= 2) or len(data) > 3:
+            return True
+        blk = BLOCK.get(alg_name, 64) // 8
+        key = bytes(range(1, sizes[0] + 1))
+        mode = None
+        for k in range(len(MODE_LIST)):
+            if mode_i == k:
+                mode = MODE_LIST[k]
+        pad = PM.PKCS5 if pad_i == 1 else PM.ANSI_X923
+        iv = bytes(blk - 1 if iv_short else blk)
+        ct = (b"E[" + data + b"]") if wrap_ok else data
+        e = install()
+        try:
+            e.decrypt(alg, key, ct, cipher_mode=mode, padding_method=pad, iv_nonce=iv,
+                      auth_tag=b"T" * 16 if mode == BM.GCM else None)
+        except kex.KmipError:
+            pass
+        reach()
+        return True
     return h
 
 
@@ -721,6 +769,10 @@ def conditions(tier):
                                    "(arbitrary bytes) or generated, AAD present or not, tag length absent or 0..16, the "
                                    "algorithm constructor behaving or raising ValueError/TypeError/UnsupportedAlgorithm"
                                    % (name, mname), timeout=1200, part="symmetric"))
+        out.append(Cond("decrypt-garbage-%s" % name, "decrypt_garbage", dict(alg_i=i),
+                        bounds="%s: every supported mode, both paddings, data of <=3 arbitrary bytes presented as cipher "
+                               "text (well-formed for the fake cipher or not), IV of block size or one byte short" % name,
+                        timeout=600, part="symmetric"))
         out.append(Cond("decrypt-roundtrip-%s" % name, "decrypt_roundtrip", dict(alg_i=i),
                         bounds="%s: every supported mode, both paddings, plaintext lengths around the block size, IV "
                                "supplied or generated" % name, timeout=900, part="symmetric"))
